@@ -37,11 +37,12 @@ func projectReaders(data []byte) []string {
 			case refmcap.OpDataEnd:
 				add("lex dataend")
 			case refmcap.OpFooter:
-				ft, err := mcap.ParseFooter([]byte(o.Canon[1:]))
-				if err != nil {
+				// the footer holds only offsets and a CRC; whether the summary is non-empty legitimately
+				// changes when an unknown record is the summary's only content, so nothing of it is projected
+				if _, err := mcap.ParseFooter([]byte(o.Canon[1:])); err != nil {
 					add("lex footer unparsable: %v", err)
 				} else {
-					add("lex footer summary=%v offsets=%v", ft.SummaryStart != 0, ft.SummaryOffsetStart != 0)
+					add("lex footer")
 				}
 			case refmcap.OpStatistics:
 				st, err := mcap.ParseStatistics([]byte(o.Canon[1:]))
